@@ -397,7 +397,7 @@ def run(ctx):
         preds.append(("single_roundtrip", {"d": xb(d)}))
         enc_len = (ln + (1 if ln <= 23 else 2 if ln <= 255 else 3 if ln <= 65535 else 5)) * 8 // 5 + 8
         if ln > 2000 and not ctx.thorough:
-            cs = {rng.randrange(1, 2001), 300}
+            cs = {rng.choice(chunk_catalogue), rng.randrange(1, 2001), 300}
         else:
             cs = set(rng.sample(chunk_catalogue, 3)) | {rng.randrange(1, 2001) for _ in range(3)} | {300}
         if ln in (0, 24, 256):
@@ -480,7 +480,7 @@ def run(ctx):
     pool = [(d, parts) for d, parts in encoded if len(parts) <= 3 and sum(len(p) for p in parts) < 400]
     rng.shuffle(pool)
     n_sub = 0
-    for d, parts in pool[: ctx.n(3, 60)]:
+    for d, parts in pool[: ctx.n(4, 60)]:
         for pi, p in enumerate(parts):
             for pos in range(len(p)):
                 for ch in alphabet:
